@@ -8,6 +8,9 @@ import ChiDriver.C09
 import ChiDriver.C10
 import ChiDriver.C06
 import ChiDriver.C07
+import ChiDriver.C20
+import ChiDriver.C18
+import ChiDriver.C14
 namespace ChiDriver
-def allOps : List (String × Op) := C04.ops ++ C01.ops ++ C08.ops ++ C02.ops ++ C03.ops ++ C19.ops ++ C09.ops ++ C10.ops ++ C06.ops ++ C07.ops
+def allOps : List (String × Op) := C04.ops ++ C01.ops ++ C08.ops ++ C02.ops ++ C03.ops ++ C19.ops ++ C09.ops ++ C10.ops ++ C06.ops ++ C07.ops ++ C18.ops ++ C20.ops ++ C14.ops
 end ChiDriver
